@@ -698,7 +698,7 @@ func (x *Exec) runPath(fn *ssa.Function) {
 		if len(x.h.Samples) < 3 {
 			x.h.Samples = append(x.h.Samples, x.sample())
 		}
-		if len(x.h.Witnesses) < x.eng.cfg.Witnesses && (x.h.Completed <= 2 || x.h.Completed%7 == 0) {
+		if len(x.h.Witnesses) < x.eng.cfg.Witnesses && (x.h.Completed <= 2 || x.h.Completed%7 == 0 || x.eng.cfg.Witnesses >= 100) {
 			x.addWitness()
 		}
 	}
